@@ -831,6 +831,14 @@ class BlockBase(Base):
                                     obj.restore_reader(reader)
                                 return None
                             continue
+                        if isinstance(obj, di.End_Do_Stmt):
+                            end_name = obj.get_end_name()
+                            start_name = content[start_idx].get_start_name()
+                            if (end_name or "").lower() != (start_name or "").lower():
+                                raise FortranSyntaxError(
+                                    reader,
+                                    f"Expecting name '{start_name}', got '{end_name}'",
+                                )
                     if match_names:
                         start_name, end_name = (
                             content[start_idx].get_start_name(),
